@@ -44,7 +44,8 @@ def generate(seed, prop):
             w[k] = 0.0
     names = list(w)
     ops = []
-    for _ in range(rng.randint(3, 22)):
+    from ..core import deep
+    for _ in range(rng.randint(3, 44 if deep() else 22)):
         name = rng.choices(names, [w[k] for k in names])[0]
         ops.append(draw_op(rng, name, fault_rate))
     return {"machine": "recording", "property": prop, "run_seed": int(seed),
